@@ -501,6 +501,61 @@ func c10genpair(c *core.Check, st *tmpl.Static) {
 				}
 			}
 		}
+		// a struct-like value is decoded into storage that already carries the declared defaults: FastRead assigns only
+		// the fields present in the data, and the standard Read starts every struct from NewT() / InitDefault()
+		agg.check("fast-read-struct-initialised", fastgoRel+"/genFastReadAny")
+		{
+			var flat []ast.Stmt
+			var walk func(list []ast.Stmt)
+			walk = func(list []ast.Stmt) {
+				for _, st := range list {
+					flat = append(flat, st)
+					switch x := st.(type) {
+					case *ast.BlockStmt:
+						walk(x.List)
+					case *ast.ForStmt:
+						walk(x.Body.List)
+					case *ast.RangeStmt:
+						walk(x.Body.List)
+					case *ast.IfStmt:
+						walk(x.Body.List)
+					}
+				}
+			}
+			walk(rs)
+			prepared := map[string]bool{}
+			for _, st := range flat {
+				switch x := st.(type) {
+				case *ast.AssignStmt:
+					if len(x.Lhs) >= 1 && len(x.Rhs) == 1 {
+						if call, ok := x.Rhs[0].(*ast.CallExpr); ok {
+							fn := rules.ExprText(call.Fun)
+							if i := strings.LastIndex(fn, "."); i >= 0 {
+								fn = fn[i+1:]
+							}
+							// TypeName.NewFunc() of an abstract type name renders as a placeholder ending in NewFunc
+							if (strings.HasPrefix(fn, "New") || strings.HasSuffix(fn, "_NewFunc")) && len(call.Args) == 0 {
+								prepared[rules.ExprText(x.Lhs[0])] = true
+								continue
+							}
+							if _, name, _, ok := rules.SelectorCall(call); ok && name == "FastRead" {
+								recv := rules.ExprText(call.Fun.(*ast.SelectorExpr).X)
+								if !prepared[recv] {
+									agg.fail("fast-read-struct-initialised", fastgoRel+"/genFastReadAny", fmt.Sprintf("under [%s] shape %s: %s.FastRead decodes into storage that was neither made by New<T>() nor given InitDefault(): fields absent from the data keep Go's zero value instead of the declared default, so FastRead and the standard Read disagree (optional fields equal to their default are never on the wire)", val, sh, recv))
+								}
+								continue
+							}
+						}
+						// any other assignment to the name forgets the preparation
+						delete(prepared, rules.ExprText(x.Lhs[0]))
+					}
+				case *ast.ExprStmt:
+					if recvT, name, _, ok := rules.SelectorCall(x.X); ok && name == "InitDefault" {
+						prepared[recvT] = true
+					}
+				}
+			}
+		}
 		// byte counts
 		agg.check("blength-equals-append", fastgoRel+"/genBLengthField~genFastAppendField")
 		cb, eb := sizeOfStmts(bs, "blength", loopVars{}, 0)
@@ -592,6 +647,7 @@ func c10genpair(c *core.Check, st *tmpl.Static) {
 		"read-var-type-matches-reader":     "string variables are filled by ReadString, []byte variables by ReadBinary",
 		"blength-equals-append":            "symbolic byte count of BLength = bytes FastAppend writes",
 		"append-header":                    "3-byte header (spec wire type, id high, id low)",
+		"fast-read-struct-initialised":     "every FastRead receiver was made by New<T>() or given InitDefault()",
 		"optional-guard-agrees-with-isset": "the guard around an optional field is of the same kind (nil / default / content) as the rendered IsSet",
 		"read-consumes-what-append-writes": "FastRead's wire-event tree equals FastAppend's",
 	})
